@@ -323,7 +323,7 @@ func (v *Verifier) verifyFunc(key string, timeout int, tier string) *FuncReport 
 	}
 	rep.Func = funcShort(fn)
 	if con == nil {
-		con = &Contract{Pkg: fn.Pkg.Pkg.Path(), Name: fn.RelString(fn.Pkg.Pkg), Loops: map[int]*LoopSpec{}, Options: map[string]string{}}
+		con = &Contract{Pkg: fn.Pkg.Pkg.Path(), Name: fn.RelString(fn.Pkg.Pkg), Loops: map[int]*LoopSpec{}, Options: map[string]string{}, At: map[string][]Clause{}}
 		rep.Notes = append(rep.Notes, "no contract: implicit safety obligations only")
 	}
 	if len(fn.Blocks) == 0 {
@@ -357,6 +357,18 @@ func (v *Verifier) verifyFunc(key string, timeout int, tier string) *FuncReport 
 			}
 			if !found {
 				x.failed = fmt.Sprintf("contract names loop %d but the function has %d loops", n, len(x.loops))
+				return
+			}
+		}
+		for site := range con.At {
+			found := false
+			for _, sn := range x.sites {
+				if sn == site {
+					found = true
+				}
+			}
+			if !found {
+				x.failed = "contract names call site " + site + " which no longer exists"
 				return
 			}
 		}
